@@ -25,6 +25,14 @@ pub fn fam_msg(seed: u64, n: usize, opts: &gen::GenOpts) -> Vec<Program> {
         .collect()
 }
 
+pub fn fam_reply(seed: u64, n: usize, opts: &gen::GenOpts, any_order: bool) -> Vec<Program> {
+    draw_tapes(seed ^ 0x7265_706c, n, 600)
+        .into_iter()
+        .enumerate()
+        .map(|(i, t)| gen::gen_reply_program(&format!("r_{i:03}"), t, opts, any_order))
+        .collect()
+}
+
 fn main() {
     let args: Vec<String> = std::env::args().collect();
     match args.get(1).map(|s| s.as_str()) {
@@ -32,7 +40,11 @@ fn main() {
             let n: usize = args.get(2).and_then(|s| s.parse().ok()).unwrap_or(4);
             let seed: u64 = args.get(3).and_then(|s| s.parse().ok()).unwrap_or(1);
             let nlibs: usize = args.get(4).and_then(|s| s.parse().ok()).unwrap_or(1);
-            let progs = fam_msg(seed, n, &gen::GenOpts::default());
+            let progs = if std::env::var("FAM").as_deref() == Ok("reply") {
+                fam_reply(seed, n, &gen::GenOpts::default(), false)
+            } else {
+                fam_msg(seed, n, &gen::GenOpts::default())
+            };
             let spec = corpus::CorpusSpec { name: "dev", programs: &progs, alias: None, extra_files: vec![] };
             let dir = corpus::write_corpus(&spec, nlibs);
             let t0 = std::time::Instant::now();
